@@ -5,6 +5,7 @@ import (
 	"go/ast"
 	"go/token"
 	"go/types"
+	"reflect"
 	"strings"
 	"time"
 
@@ -46,12 +47,13 @@ func identicalModTime(got, orig types.Type) bool {
 }
 
 // flatFields lists the fields the analysis is expected to report for a struct:
-// embedded named structs are flattened, recursively.
+// embedded named structs without a JSON name are flattened, recursively (encoding/json's rule).
 func flatFields(st *types.Struct, enums map[*types.Named]*refEnum, unions map[*types.Named][]*types.Named) []*types.Var {
 	var out []*types.Var
 	for i := 0; i < st.NumFields(); i++ {
 		f := st.Field(i)
-		if f.Embedded() {
+		jsonName, _, _ := strings.Cut(reflect.StructTag(st.Tag(i)).Get("json"), ",")
+		if f.Embedded() && jsonName == "" { // as encoding/json: a JSON name prevents flattening
 			ft := types.Unalias(f.Type())
 			if n, ok := ft.(*types.Named); ok && !isTimeLike(ft) {
 				if inner, ok := n.Underlying().(*types.Struct); ok {
